@@ -345,8 +345,8 @@ def op_exact(case, op):
         rec = case["doms"][case["fields"][op["f"]]["dom"]]
         if not all(L.nice_recipe(r) for r in rec):
             return False
-        if name == "weight" and op["power"] < 0:
-            return False
+        if name == "weight" and op["power"] not in (0, 1):
+            return False  # `fct**power` / `wgt**power` go through libm pow: tolerance class
     if name in ("bin", "bins", "mbin", "mbins") and op["name"] == "truediv" and op.get("rev"):
         return False
     # anything that takes a square root (2-norms, |z| of complex numbers via hypot) is class T
